@@ -31,6 +31,9 @@ type lockState struct {
 	writer  *Task
 	readers []*Task
 	label   string
+	// announced: a writer that has called Lock while readers were active (Go's
+	// RWMutex then turns later RLock calls away until that writer is done)
+	announced *Task
 }
 
 type RWMutex struct {
@@ -236,8 +239,13 @@ func (w *World) AllTasks() []*Task {
 }
 
 // Enabled reports whether the task's pending operation can be granted now.
-// No writer preference is modelled: every execution of the model is an
-// execution of the real primitive in which the waiting writer called Lock later.
+// A parked task has not called the primitive yet (it may have been preempted
+// just before the call), so by default a waiting writer does not hold readers
+// off: every execution of the model is an execution of the real primitive in
+// which the waiting writer called Lock later.  The other real behaviour - the
+// writer has called Lock, waits for the active readers, and every RLock that
+// arrives meanwhile blocks behind it (which is what makes a recursive read lock
+// deadlock) - is the explicit scheduling event Announce.
 func (w *World) Enabled(t *Task) bool {
 	if !t.Parked {
 		return false
@@ -246,11 +254,24 @@ func (w *World) Enabled(t *Task) bool {
 	case OpYield:
 		return true
 	case OpLock:
-		return t.Op.L.writer == nil && len(t.Op.L.readers) == 0
+		return t.Op.L.writer == nil && len(t.Op.L.readers) == 0 && (t.Op.L.announced == nil || t.Op.L.announced == t)
 	case OpRLock:
-		return t.Op.L.writer == nil
+		return t.Op.L.writer == nil && t.Op.L.announced == nil
 	}
 	return false
+}
+
+// CanAnnounce: t is a writer kept waiting by active readers only, and nobody
+// has announced itself on that lock yet.
+func (w *World) CanAnnounce(t *Task) bool {
+	return t.Parked && t.Op.Kind == OpLock && t.Op.L.writer == nil && len(t.Op.L.readers) > 0 && t.Op.L.announced == nil
+}
+
+// Announce: t's Lock call has happened; RLock calls from now on wait for t.
+func (w *World) Announce(t *Task) {
+	w.mu.Lock()
+	t.Op.L.announced = t
+	w.mu.Unlock()
 }
 
 // BlockedBy returns the tasks that currently prevent t's operation.
@@ -261,6 +282,9 @@ func (w *World) BlockedBy(t *Task) []*Task {
 	var out []*Task
 	if t.Op.L.writer != nil {
 		out = append(out, t.Op.L.writer)
+	}
+	if t.Op.L.announced != nil && t.Op.L.announced != t {
+		out = append(out, t.Op.L.announced)
 	}
 	if t.Op.Kind == OpLock {
 		out = append(out, t.Op.L.readers...)
@@ -277,6 +301,9 @@ func (w *World) Release(t *Task) {
 			w.Order[[2]int{h.l.id, t.Op.L.id}] = true
 		}
 		t.Op.L.writer = t
+		if t.Op.L.announced == t {
+			t.Op.L.announced = nil
+		}
 		t.Held = append(t.Held, held{t.Op.L, false})
 	case OpRLock:
 		for _, h := range t.Held {
